@@ -9,6 +9,11 @@ import z3
 
 from .core import realval, term_is_num, num_of
 
+import math as _m
+
+LIBM = {'sqrt': _m.sqrt, 'sin': _m.sin, 'cos': _m.cos, 'tan': _m.tan, 'atan': _m.atan, 'atan2': _m.atan2,
+        'pow': _m.pow, 'exp': _m.exp, 'log': _m.log}
+
 PI_LO = realval(3.14159265358979)
 PI_HI = realval(3.14159265358980)
 
